@@ -23,6 +23,8 @@ pub enum MTy {
 
 /// flag on a timeout given in milliseconds: plus half a millisecond
 pub const HALF_MS: u64 = 1 << 50;
+/// the timeout is Duration::MAX (never expires; must not overflow anything)
+pub const DUR_MAX: u64 = 1 << 52;
 pub const F_JPANIC: u8 = 1;
 pub const F_JABORT: u8 = 2;
 /// the message's `on_tell_result` panics (only reached when the message was told, not asked)
